@@ -43,7 +43,9 @@ def depth3():
 # a few depth-3 terms that the quick tier takes as well: containers of containers whose members may be equal but of different types ((True,) == (1,))
 EXTRA2 = ["list[tuple[bool]]", "list[tuple[int]]", "tuple[tuple[bool], ...]", "list[dict[str, bool]]", "tuple[tuple[float], tuple[int], tuple[bool]]", "Sequence[tuple[bool, ...]]",
           # total TypedDicts that inherit all their keys from a total=False base
-          "TDC", "TDD", "list[TDC]", "Optional[TDD]"]
+          "TDC", "TDD", "list[TDC]", "Optional[TDD]",
+          # bare typing.Tuple, type[None], a NewType of a NewType
+          "Tuple", "type[None]", "NT2", "list[NT2]", "TDB"]
 
 
 def terms(maxdepth):
